@@ -162,3 +162,23 @@ prop("C07", harness="C07",
      trusted_base=["sync.Map / Go map semantics as association lists"],
      assumptions=["expiry is modelled as a flag fixed at retain time"],
 )
+
+prop("C06",
+     coq=["gen/Extracted.v", "model/ConnSM.v", "chk/C06chk.v", "props/C06.v"],
+     n={"quick": 600, "thorough": 15000, "search": 2500},
+     shard=1000,
+     shrink_fields=["pkts"], shrink_min=1,
+     rule="packet sequences on one connection: cells 0-44 enumerate every one of the 15 packet types as FIRST packet on v3.1 / v3.1.1 / v5, cells 45-89 every type as SECOND packet after CONNECT; "
+          "the rest: CONNECT (10%: some other type) followed by 0-8 packets, 85% from the legal client set (PUBLISH qos 0-2, acks with unknown ids, SUBSCRIBE/UNSUBSCRIBE with 1-3 filters, PINGREQ), "
+          "15% any type; identifier 0 in 10-12% of the packets that carry one; options: protocol version not allowed (8%), subscription identifiers unsupported (25%), CONNECT with Authentication Method / refused credentials (10%). "
+          "Lock-step with a two-round-trip PINGREQ barrier; observables: response types, identifiers, number of codes, closure, DISCONNECT presence; a bystander client must still be served. "
+          "non-trivial = more than one packet; distinct by case JSON.",
+     level_text="Theorems (coq/props/C06.v): the admissibility table extracted from connection/connection.go on every run IS the set of packet types a client may send per state (by computation); "
+                "first packet other than CONNECT -> closed, nothing sent; over every packet sequence exactly one CONNACK, before anything else, and silence once nothing was answered; every packet "
+                "illegal in an established connection (server-to-client types, second CONNECT, unsolicited AUTH, identifier 0) closes it, a v5 connection being sent DISCONNECT first; "
+                "SUBSCRIBE/UNSUBSCRIBE/PINGREQ get exactly their response; the closed state is absorbing. Tied by the translator and by differential runs over all 15 types x 3 versions. "
+                "Open known finding C06-unsuback-no-codes (external codec).",
+     level_note="Trusted: Coq kernel + vm_compute; tools/goextract (keys of expectedPacketType and the presence-test shape of the lookup); hand translation of processIncoming/onConnect/processConnect; vlapi codec (with two harness-side workarounds for v5 UNSUBSCRIBE encode / UNSUBACK decode).",
+     trusted_base=["tools/goextract: expectedPacketType", "vlapi/mqttp codec"],
+     assumptions=["publish/ack handling beyond 'no outstanding handshake' is C04/C03", "re-authentication is unreachable: no authentication method is ever accepted"],
+)
